@@ -371,6 +371,136 @@ def prechecker_rule(ctx, facts, rid):
 
 
 def pinned_rule(ctx, facts, rid):
+    """What pinned() computes, tabulated: its model is evaluated on a structured family of boards (king on 5 squares x every direction
+    with room x own/enemy blockers at two distances x slider kinds incl. the wrong geometry, and every pair of simultaneous pins) and
+    must return exactly the own men that are the only man between the king and an enemy slider of that line's geometry. attack::bishop /
+    attack::rook are taken as the sliding functions C15 proves them to be; between tables are read from the build."""
+    from .machine import Machine, Stuck
+    from .teval import Unsupported, Panic
+    from . import geom
+    r = ctx.rule(rid, "pinned() returns exactly the own men standing alone between the king and an enemy slider of the matching geometry "
+                      "(diagonal: bishop/queen, line: rook/queen), for every pinner at once - model evaluated on a structured family of boards")
+    fn = facts.fns.get("owlchess::legal::DefaultPrechecker::pinned")
+    if fn is None:
+        r.anchor_missing("owlchess::legal::DefaultPrechecker::pinned")
+        return
+    stop = {"owlchess::attack::bishop", "owlchess::attack::rook"}
+    tree = FxBuilder(facts, ai_mode=True, max_depth=12, max_blocks=400, stop=stop).tree(fn)
+    PAWN, KING, KNIGHT, BISHOP, ROOK, QUEEN = 0, 1, 2, 3, 4, 5
+
+    def cell(c, p):
+        return 1 + 6 * c + p
+
+    def run(board, side, king):
+        def mem(place, m):
+            t = show(unstamp(place))
+            if t.endswith(".white"):
+                return sum(1 << q for q, c in board.items() if 1 <= c <= 6)
+            if t.endswith(".black"):
+                return sum(1 << q for q, c in board.items() if 7 <= c <= 12)
+            if t.endswith(".all"):
+                return sum(1 << q for q in board)
+            if place[0] in ("index", "tbl") and show(unstamp(place[1])).endswith(".pieces"):
+                k = m.ev(place[2])
+                return sum(1 << q for q, c in board.items() if c == k)
+            raise Unsupported("memory read " + t[:60])
+
+        def oracle(name, args, m):
+            if name in stop:
+                return geom.slide(m.ev(args[0]), m.ev(args[1]), geom.BISHOP_DIRS if name.endswith("bishop") else geom.ROOK_DIRS)
+            return None
+        m = Machine(facts, tree, mem=mem, oracle=oracle)
+        m.syms[2] = side
+        m.syms[3] = king
+        res = m.start()
+        steps = 0
+        while res[0] == "at" and steps < 400:
+            res = m.resume(res[1])
+            steps += 1
+        if res[0] != "ret" or not isinstance(res[1], int):
+            raise Stuck("pinned() ends with %r" % (res,))
+        return res[1]
+
+    def ref(board, side, king):
+        out = 0
+        own = (lambda c: 1 <= c <= 6) if side == 0 else (lambda c: 7 <= c <= 12)
+        for dirs, kinds in ((geom.BISHOP_DIRS, (BISHOP, QUEEN)), (geom.ROOK_DIRS, (ROOK, QUEEN))):
+            for d in dirs:
+                first = None
+                for q in geom.ray(king, d):
+                    c = board.get(q)
+                    if c is None:
+                        continue
+                    if first is None:
+                        if not own(c):
+                            break
+                        first = q
+                    else:
+                        if not own(c) and (c - 1) % 6 in kinds:
+                            out |= 1 << first
+                        break
+        return out
+    n = 0
+    bad = None
+    try:
+        for side in (0, 1):
+            opp = 1 - side
+            for king in (56, 35, 60, 7, 28):
+                configs = []
+                for d in geom.BISHOP_DIRS + geom.ROOK_DIRS:
+                    ray_ = geom.ray(king, d)
+                    if len(ray_) < 3:
+                        continue
+                    diag = d in geom.BISHOP_DIRS
+                    for i1 in (0, 1):
+                        for i2 in range(i1 + 1, min(i1 + 3, len(ray_))):
+                            for pk in (BISHOP, ROOK, QUEEN, KNIGHT):
+                                base = {ray_[i1]: cell(side, KNIGHT), ray_[i2]: cell(opp, pk)}
+                                configs.append(base)
+                                if i2 - i1 == 2:
+                                    configs.append({**base, ray_[i1 + 1]: cell(side, PAWN)})     # two own men: no pin
+                                    configs.append({**base, ray_[i1 + 1]: cell(opp, PAWN)})      # an enemy man shields
+                            configs.append({ray_[i1]: cell(opp, KNIGHT), ray_[i2]: cell(opp, QUEEN if diag else ROOK)})   # first man is not ours
+                            configs.append({ray_[i1]: cell(side, QUEEN), ray_[i2]: cell(side, QUEEN if diag else ROOK)})   # the slider is ours
+                singles = [c for c in configs]
+                # simultaneous pins: every pair of the plain pin configurations of different directions
+                pins = []
+                for d in geom.BISHOP_DIRS + geom.ROOK_DIRS:
+                    ray_ = geom.ray(king, d)
+                    if len(ray_) >= 2:
+                        pins.append({ray_[0]: cell(side, ROOK), ray_[-1]: cell(opp, QUEEN)})
+                for a in range(len(pins)):
+                    for b_ in range(a + 1, len(pins)):
+                        configs.append({**pins[a], **pins[b_]})
+                if len(pins) >= 3:
+                    allp = {}
+                    for p_ in pins:
+                        allp.update(p_)
+                    configs.append(allp)
+                for cfg in configs:
+                    board = dict(cfg)
+                    board[king] = cell(side, KING)
+                    got = run(board, side, king)
+                    want = ref(board, side, king)
+                    n += 1
+                    if got != want:
+                        bad = "with the %s king on %s and men %s pinned() returns %s, the pinned men are %s" % (
+                            "white" if side == 0 else "black", geom.name(king),
+                            ", ".join("%s:%d" % (geom.name(q), c) for q, c in sorted(cfg.items())),
+                            [geom.name(q) for q in geom.bits(got)], [geom.name(q) for q in geom.bits(want)])
+                        break
+                if bad:
+                    break
+            if bad:
+                break
+    except (Stuck, Unsupported, Panic) as ex:
+        bad = "model not evaluable: %s" % str(ex)[:140]
+    r.check(bad is None, "pinned", bad or "", site=ctx.site(fn), what="pinned() on %d boards: single pins, shields, wrong geometry, simultaneous pins" % n)
+    if bad is None:
+        r.floor(n, 1500, "boards for pinned()")
+
+
+def pinned_shape_rule(ctx, facts, rid):
     r = ctx.rule(rid, "pin detection pairs each geometry with itself: bishop x-ray & diagonal sliders -> bishop between; rook likewise")
     fn = facts.fns.get("owlchess::legal::DefaultPrechecker::pinned")
     if fn is None:
